@@ -292,7 +292,10 @@ class SSHSession(Session):
         if hostkey_b64:
             # If we need to connect with a specific hostkey, negotiate for only its type
             hostkey_obj = None
-            for key_cls in [paramiko.DSSKey, paramiko.Ed25519Key, paramiko.RSAKey, paramiko.ECDSAKey]:
+            # (DSS keys were removed from recent paramiko releases)
+            key_classes = [getattr(paramiko, name) for name in ("DSSKey", "Ed25519Key", "RSAKey", "ECDSAKey")
+                           if hasattr(paramiko, name)]
+            for key_cls in key_classes:
                 try:
                     hostkey_obj = key_cls(data=base64.b64decode(hostkey_b64))
                 except paramiko.SSHException:
